@@ -248,19 +248,24 @@ Proof.
 Qed.
 
 (** the C17 oracle holds on every trace of the model *)
+Lemma oimg_refl : forall o, oimg_eqb o o = true.
+Proof.
+  assert (E3 : forall l, listN_eqb l l = true) by (induction l; cbn; [reflexivity|rewrite N.eqb_refl; assumption]).
+  intros [l|]; cbn; [apply E3|reflexivity].
+Qed.
+
 Lemma unchanged_refl : forall s x y, unchanged (observe s x) (observe s y) = true.
 Proof.
   intros. unfold unchanged, observe; cbn.
   assert (forall t, rstate_eqb t t = true) as E1 by (destruct t; reflexivity).
   assert (forall m, omode_eqb m m = true) as E2 by (destruct m as [[]|]; reflexivity).
-  assert (forall l, listN_eqb l l = true) as E3 by (induction l; cbn; [reflexivity|rewrite N.eqb_refl; assumption]).
-  rewrite E1, E2, Z.eqb_refl. cbn. destruct (r s); cbn; [apply E3|reflexivity].
+  rewrite E1, E2, Z.eqb_refl. cbn. apply oimg_refl.
 Qed.
 
 Lemma same_img_refl : forall s x y, same_img (observe s x) (observe s y) = true.
 Proof.
-  intros. unfold same_img, observe; cbn. destruct (r s); [|reflexivity].
-  induction (image (applied s)); cbn; [reflexivity|rewrite N.eqb_refl; assumption].
+  intros. unfold same_img, observe; cbn.
+  match goal with |- match ?o with Some _ => _ | None => _ end = true => pose proof (oimg_refl o) as H; destruct o; [exact H|reflexivity] end.
 Qed.
 
 Lemma serving_obs : forall s x, serving (observe s x) = serving_st s.
@@ -286,6 +291,9 @@ Proof.
     destruct (remove_needs_rw s E) as [H1 _]. rewrite H1. cbn. apply unchanged_refl.
   - rewrite mode_is_rw. destruct (is_rw s) eqn:E; [reflexivity|].
     destruct (remove_needs_rw s E) as [_ H1]. rewrite H1. cbn. apply unchanged_refl.
+  - (* failed close *)
+    cbn [c17_eng step]. destruct (r s) as [z|] eqn:Hr; cbn [fst snd set_r];
+      unfold serving, mode_is, observe; cbn; rewrite ?Hr; reflexivity.
 Qed.
 
 Lemma c17_step_model : forall s x0 t,
